@@ -10,7 +10,10 @@ At the end the close the framework owes the client (1000, 3000+status, 3404, 340
 configured error code, 3011 fallback) is judged the same way.
 
 Not covered here (C18): receive-buffer schedules.  Every server-side event is available
-as soon as it is asked for; the only schedule variation is whether receive() yields once.
+as soon as it is asked for, except at scripted client pauses (which end when the application
+can only wait); the other schedule variation is whether receive() yields once.  Receives
+with a deadline (asyncio.wait_for on the virtual clock) are cancelled while parked whenever the
+client is silent: the interrupted operation must leave no trace.
 """
 
 import asyncio
@@ -140,12 +143,13 @@ async def do_op(ws, s):
         if s.get('pt') == 'text':
             return await ws.send_media(s['_v'], falcon.WebSocketPayloadType.TEXT)
         return await ws.send_media(s['_v'])
-    if n == 'receive_text':
-        return await ws.receive_text()
-    if n == 'receive_data':
-        return await ws.receive_data()
-    if n == 'receive_media':
-        return await ws.receive_media()
+    if n in ('receive_text', 'receive_data', 'receive_media'):
+        coro = getattr(ws, n)()
+        if s.get('timeout') is not None:
+            # the keep-alive / polling idiom: on the stepped loop the deadline is virtual time and
+            # expires only when nothing else can run, i.e. the receive is cancelled while parked
+            return await asyncio.wait_for(coro, s['timeout'])
+        return await coro
     raise AssertionError(n)
 
 
@@ -273,6 +277,8 @@ def client_events(client):
             ev = {'type': 'websocket.receive', 'bytes': bytes.fromhex(c['hex'])}
             if c.get('both'):
                 ev['text'] = None
+        elif t == 'pause':
+            ev = {'type': D.PAUSE}
         elif t == 'disc':
             ev = {'type': 'websocket.disconnect'}
             if c.get('code') is not None:
@@ -580,6 +586,10 @@ def run_case(rec, case, tag):
             rec.count('fault.%s.%s' % (a[2].split(':')[1], (a[1].get('type') or '?').split('.')[-1]))
     if drv.disconnect_handed:
         rec.count('server.disconnect-handed')
+    if drv.pauses_released:
+        rec.count('server.pauses-released', drv.pauses_released)
+    if drv.rx_parked:
+        rec.count('server.receive-parked', drv.rx_parked)
     rec.count('spec.%s' % case_spec(case))
     rec.count('queue.%s' % ('0' if norm_case(case)['queue'] == 0 else 'n'))
     rec.count('outcome.' + str(drv.outcome))
@@ -625,6 +635,8 @@ OPS_A = [
     {'op': 'receive_text', 'prop': True},
     {'op': 'send_text', 'v': {'hex': '6162'}},
     {'op': 'send_data', 'v': 'str'},
+    {'op': 'receive_text', 'timeout': 5},
+    {'op': 'receive_media', 'timeout': 0.25},
 ]
 
 
@@ -707,6 +719,61 @@ def block_a(rec):
             o = run_case(rec, case, 'exhaustive-scripts')
             if o.drv.attempts and (not quick or len(steps) <= 2):
                 faults_for(rec, case, o, j, all_kinds=not quick and len(steps) <= 2)
+    return idx
+
+
+PAUSE = {'t': 'pause'}
+CLIENTS_D = [
+    [],
+    [PAUSE, T1],
+    [PAUSE, B1, T1],
+    [T1, PAUSE, B1],
+    [PAUSE, PAUSE, T1, {'t': 'disc', 'code': 1001}],
+    [PAUSE, {'t': 'disc'}],
+    [T1, B1],
+]
+TIMED = [
+    {'op': 'receive_text', 'timeout': 5},
+    {'op': 'receive_data', 'timeout': 0.001},
+    {'op': 'receive_media', 'timeout': 3600},
+]
+AFTER_D = [
+    None,
+    {'op': 'receive_text'},
+    {'op': 'receive_data', 'timeout': 2},
+    {'op': 'send_text', 'v': 'still here'},
+    {'op': 'close', 'code': 4001},
+]
+CONFIGS_D = [
+    {'spec': '2.4', 'queue': 4}, {'spec': '2.4', 'queue': 0}, {'spec': '2.0', 'queue': 1, 'rx_yield': True},
+    {'spec': '2.3', 'queue': 0, 'rx_yield': True}, {'spec': None, 'queue': 2}, {'spec': '2.1', 'queue': 16, 'rx_yield': True},
+]
+
+
+def block_d(rec):
+    """Bounded-exhaustive: interruption of a waiting operation followed by further operations.
+
+    The only operations that can be suspended at the server boundary are the receives (this fake server's
+    send never suspends).  accept; [receive]; timed receive X; any operation Y; one of a few operations Z
+    x client scripts with pauses x queue sizes: a receive cancelled while parked must consume nothing and
+    leave the socket exactly as it was."""
+    idx = 0
+    for pre in (None, {'op': 'receive_text'}, {'op': 'send_text', 'v': 'hi'}):
+        for x in TIMED:
+            for y in OPS_A + TIMED[1:]:
+                for z in AFTER_D:
+                    for client in CLIENTS_D:
+                        idx += 1
+                        if idx % rec.nshards != rec.shard:
+                            continue
+                        j = idx // rec.nshards
+                        steps = [{'op': 'accept'}] + ([pre] if pre else []) + [x, y] + ([z] if z else [])
+                        cfgs = CONFIGS_D if rec.tier != 'quick' else [CONFIGS_D[j % 6], CONFIGS_D[(j + 1) % 6]]
+                        for cfg in cfgs:
+                            case = dict(cfg)
+                            case['steps'] = steps
+                            case['client'] = client
+                            run_case(rec, case, 'exhaustive-cancel')
     return idx
 
 
@@ -878,12 +945,10 @@ def rnd_step(rng, allow_raise=True):
             s['pt'] = 'binary'
         elif q < 0.5:
             s['pt'] = 'text'
-    elif r < 0.72:
-        s = {'op': 'receive_text'}
-    elif r < 0.80:
-        s = {'op': 'receive_data'}
     elif r < 0.88:
-        s = {'op': 'receive_media'}
+        s = {'op': 'receive_text' if r < 0.72 else 'receive_data' if r < 0.80 else 'receive_media'}
+        if rng.random() < 0.3:
+            s['timeout'] = rng.choice([0.001, 1, 30])
     elif r < 0.93 or not allow_raise:
         s = {'op': 'yield'}
     else:
@@ -917,6 +982,9 @@ def rnd_client(rng):
     out = []
     for _ in range(rng.choice([0, 1, 2, 3, 4, 6, 9])):
         r = rng.random()
+        if rng.random() < 0.15:
+            out.append({'t': 'pause'})
+            continue
         if r < 0.4:
             t = json.dumps(rnd_json(rng)) if rng.random() < 0.7 else rnd_text(rng)
             ev = {'t': 'text', 'v': t}
@@ -1011,11 +1079,13 @@ def run(rec):
     block_c(rec)
     na = block_a(rec)
     nb = block_b(rec)
+    nd = block_d(rec)
     rec.exhaustive = True
     if rec.shard == 0:
         rec.note('exhaustive: %d (script<=%d x client) pairs over %d ops, each under >=2 server configurations; '
-                 '%d framework-path combinations; fault indices of every such run on spec 2.4'
-                 % (na, 2 if rec.tier == 'quick' else 3, len(OPS_A), nb))
+                 '%d framework-path combinations; fault indices of every such run on spec 2.4; '
+                 '%d cancelled-receive histories (accept; [op]; timed receive; any op; follow-up) x client pauses'
+                 % (na, 2 if rec.tier == 'quick' else 3, len(OPS_A), nb, nd))
     block_random(rec)
     D.aio.shared().close()
 
@@ -1033,6 +1103,12 @@ def run(rec):
               'accept.send-lost.oserror', 'send_text.send-lost.oserror', 'send_text.send-lost.oserror_cause',
               'send_text.send-lost.ws_ok', 'send_text.send-raised-other', 'close.send-raised.oserror'):
         rec.floor('branch.' + b, 5)
+    for b in ('receive_text.timed-out', 'receive_data.timed-out', 'receive_media.timed-out',
+              'receive_text.after-cancelled-receive', 'receive_data.after-cancelled-receive',
+              'receive_media.after-cancelled-receive', 'receive_text.waited-through-pause'):
+        rec.floor('branch.' + b, 20)
+    rec.floor('phase.exhaustive-cancel', 1000)
+    rec.floor('server.pauses-released', 100)
     for t in ('return', 'http', 'unexpected', 'handled', 'blocked', 'abandoned', 'http.404', 'http.405'):
         rec.floor('terminal.' + t, 5)
     for cnt in ('close.code.1000', 'close.code.1011', 'close.code.3011', 'close.code.3404', 'close.code.3405',
